@@ -142,6 +142,44 @@ func buildSource(n, seed, dupMod int, sameTS bool) []truth {
 	return out
 }
 
+var bigBlob = func() []byte {
+	b := make([]byte, 1200<<10)
+	x := uint32(20)
+	for i := range b {
+		x = x*1664525 + 1013904223
+		b[i] = byte(x >> 24)
+	}
+	return b
+}()
+
+// inflate gives n entries from index at on an extra_data of about kb KiB: one more (opaque) certificate is
+// appended to the chain. The structure stays well-formed; leaf_input and the certificate are untouched.
+// A handful of such entries in one batch exceed gRPC's default message limit.
+func inflate(tr []truth, at, n, kb int) {
+	for i := at; i < at+n && i < len(tr); i++ {
+		blob := append([]byte{byte(i), byte(i >> 8)}, bigBlob[:kb<<10]...)
+		var x []byte
+		var err error
+		if tr[i].Kind == kindPrecert {
+			pre, chain, _, e := rfc6962.DecodePrecertChainEntry(tr[i].Extra)
+			if e != nil {
+				panic(e)
+			}
+			x, err = rfc6962.EncodePrecertChainEntry(pre, append(chain, blob))
+		} else {
+			chain, _, e := rfc6962.DecodeChain(tr[i].Extra)
+			if e != nil {
+				panic(e)
+			}
+			x, err = rfc6962.EncodeChain(append(chain, blob))
+		}
+		if err != nil {
+			panic(err)
+		}
+		tr[i].Extra = x
+	}
+}
+
 // identity recomputes the configured identity hash from the oracle's knowledge (not from the parsers
 // of the repository): 1 = SHA256_CERT_DATA, 2 = SHA256_LEAF_INDEX (SHA-256 of the index as 8
 // little-endian bytes, as configpb documents "hash of the leaf index" and trillian.go fixes the width).
